@@ -1,0 +1,28 @@
+//go:build verif
+
+package rtmp
+
+import "github.com/q191201771/lal/pkg/base"
+
+// Verification hooks for property C15 (stalled consumer). Only built with -tags verif.
+
+// VerifC15SetWChanSize sets the write channel size used by modConnProps and returns the previous value.
+func VerifC15SetWChanSize(n int) int {
+	old := wChanSize
+	wChanSize = n
+	return old
+}
+
+// VerifC15SetWriteAvTimeoutMs sets the sub session write timeout used by modConnProps and returns the previous value.
+func VerifC15SetWriteAvTimeoutMs(n int) int {
+	old := serverSessionWriteAvTimeoutMs
+	serverSessionWriteAvTimeoutMs = n
+	return old
+}
+
+// VerifC15BecomeSub puts a fresh ServerSession into the state it has after a play command:
+// base type sub, then modConnProps (write queue and write timeout).
+func (s *ServerSession) VerifC15BecomeSub() {
+	s.sessionStat.SetBaseType(base.SessionBaseTypeSubStr)
+	s.modConnProps()
+}
